@@ -32,6 +32,16 @@ CHECKS.update({
    text='z3 proves for stored lists of 0..2/0..3 symbolic names and requested lists of 0..2/0..3 symbolic distinct names (equal to, permutation of, subset, superset of or disjoint from the stored list - the solver chooses) that gradient1 returns out[i] = derivative w.r.t. requested name i (0 if absent), gradient2 returns out[i][j] = second derivative by name, gradient1_manifold returns numbers whose value is the first derivative and whose gradient is the matching Hessian row, and that m_a*b + a*m_b reproduces gradient and Hessian of a*b for two Dual2 numbers with 0..2 names.',
    note='Reals instead of floats; requested lists with duplicates are outside the property. Finding fixed: see known_findings.json.'),
 })
+CHECKS.update({
+ 'C18': dict(engine='mirsym', technique='symbolic execution of the MIR of set_order/set_order_clone, every From impl and every Number operator body over all kind pairings; oracle = the same operator run on the contained values; z3 validity query per path; native replay',
+   category='model_checking', design_ref='DESIGN.md §3.18',
+   text='The conversion tables are finite and covered completely: set_order and set_order_clone for 3 source kinds x 3 target orders (value kept; raising a float attaches exactly the requested names, duplicates removed, unit sensitivity, zero Hessian; raising first to second order adds a zero Hessian; lowering drops only higher-order terms), every From impl in from.rs, and every operator body of the generic Number container (+ - * / %, ==, partial_cmp, neg, pow, exp, log, norm_cdf, inv_norm_cdf, abs, sum, zero, one) for all nine kind pairings: the result equals the same operator on the contained values and the two first/second-order pairings end in a panic on every path. Contents are symbolic (names and reals).',
+   note='Contained numbers carry 0..1 (quick) / 0..2 (thorough) symbolic names. Reals instead of floats. The contained operators themselves are C01/C02/C19.'),
+ 'C19': dict(engine='mirsym', technique='symbolic execution of the MIR of every partial_cmp / rem / abs impl and of Sum, Zero, One for Dual and Dual2; z3 validity query per path; native replay',
+   category='model_checking', design_ref='DESIGN.md §3.19',
+   text='z3 proves on every path: partial_cmp of every dual/dual, dual/float and float/dual impl is the ordering of the values whatever the derivative data; abs negates value and every first/second derivative exactly when the value is negative; every % impl (all owned/borrowed/float-left/right variants) returns a - trunc(a/b) b in value and per-name derivatives for divisors of either sign; Sum over 0..3/0..4 terms equals the per-name sum; zero()/one() are neutral for + and * by name; is_zero <=> value and all derivatives zero.',
+   note='Decided over the reals: NaN => None is outside the claim. <=2/<=3 names per operand.'),
+})
 NA_REASON = 'no registered check in this revision yet (work in progress; planned solver-based check described in DESIGN.md §3) — not claimed'
 
 checks = []
@@ -60,7 +70,7 @@ m = {
            'add_only': True},
  'engines': [
    {'name': 'kani', 'path': '/verif/kani', 'serves_properties': ['C08', 'C11', 'C20', 'C04'], 'kind_free_text': 'Kani 0.68 / CBMC 6.11 proof harnesses over the compiled crate (path dependency on /repo), native replay binary in the same crate'},
-   {'name': 'mirsym', 'path': '/verif/mirsym', 'serves_properties': ['C01','C02','C03','C17'], 'kind_free_text': 'symbolic executor for rustc MIR (regenerated from /repo on every run) discharging path obligations with z3'},
+   {'name': 'mirsym', 'path': '/verif/mirsym', 'serves_properties': ['C01','C02','C03','C17','C18','C19'], 'kind_free_text': 'symbolic executor for rustc MIR (regenerated from /repo on every run) discharging path obligations with z3'},
    {'name': 'tables', 'path': '/verif/tables', 'serves_properties': ['C07'], 'kind_free_text': 'SMT encoding of the static holiday tables against the published rules over a symbolic day'},
  ],
  'checks': checks,
